@@ -366,6 +366,8 @@ Section Frame.
       + reflexivity.
       + reflexivity.
       + reflexivity.
+      + reflexivity.
+      + reflexivity.
     - cbn [stepi target] in *. unfold geti. destruct (nth i (pl w) (Run.dummy, dummy_it)) as [a t].
       destruct (sub_agg a p1), (sub_it t p1); try reflexivity. simpl. apply nth_seti. congruence.
   Qed.
